@@ -52,34 +52,35 @@ def postLoop (env : Env) (dtype path : String) : List Post → DVal → St → O
 def runPosts (env : Env) (dtype path : String) (posts : List Post) (o : Out) : Out :=
   if o.2.sink.isEmpty then postLoop env dtype path posts o.1 o.2 else o
 
-def prim (env : Env) (m : Mode) (p : Prim) (path : List String) (v : Val) (d : DVal) (st : St) : Out :=
+/-- the primitive pipeline up to (not including) PostTransforms:
+    absent → Default (then tested) > Required (one issue, or the catch value) > skipped;
+    present → coerced (Parse) then tested; a catching node never emits an issue -/
+def primBody (env : Env) (m : Mode) (p : Prim) (path : List String) (v : Val) (d : DVal) (st : St) : Out :=
   let ps := render path
   let dt := p.kind.dtype
-  let absent := match m with
-    | .parse => isParseZero v
-    | .validate => isZeroD d
-  let body : Out :=
-    if absent then
-      match p.dflt with
-      | some x => tested env dt ps p.ctch p.tests x st
+  if Engine.primAbsent m v d then
+    match p.dflt with
+    | some x => tested env dt ps p.ctch p.tests x st
+    | none =>
+      match p.required with
+      | none => (d, st)
+      | some r =>
+        match p.ctch with
+        | some c => (c, st)
+        | none => (d, emit st (issueOfTest env ps dt r))
+  else
+    match m with
+    | .validate => tested env dt ps p.ctch p.tests d st
+    | .parse =>
+      match p.coerce v with
       | none =>
-        match p.required with
-        | none => (d, st)
-        | some r =>
-          match p.ctch with
-          | some c => (c, st)
-          | none => (d, emit st (issueOfTest env ps dt r))
-    else
-      match m with
-      | .validate => tested env dt ps p.ctch p.tests d st
-      | .parse =>
-        match p.coerce v with
-        | none =>
-          match p.ctch with
-          | some c => (c, st)
-          | none => (d, emit st (coerceIssue env ps dt))
-        | some x => tested env dt ps p.ctch p.tests x st
-  runPosts env dt ps p.posts body
+        match p.ctch with
+        | some c => (c, st)
+        | none => (d, emit st (coerceIssue env ps dt))
+      | some x => tested env dt ps p.ctch p.tests x st
+
+def prim (env : Env) (m : Mode) (p : Prim) (path : List String) (v : Val) (d : DVal) (st : St) : Out :=
+  runPosts env p.kind.dtype (render path) p.posts (primBody env m p path v d st)
 
 abbrev Child := List String → Val → DVal → St → Out
 
